@@ -155,9 +155,15 @@ class _Linalg:
         eng = E.ENGINE
         n = A.shape[0]
         W = np.empty((n, n), dtype=object)
+        # the inverse of a symmetric matrix is symmetric: when A[i,j] - A[j,i] normalises to 0 as a polynomial for all
+        # i < j, the contract returns a symmetric W
+        import z3
+        symmetric = all(z3.is_rational_value(d) and d.numerator_as_long() == 0
+                        for i in range(n) for j in range(i)
+                        for d in [z3.simplify(lift(A[i, j]) - lift(A[j, i]), som=True)])
         for i in range(n):
             for j in range(n):
-                W[i, j] = eng.fresh('inv', output=True)
+                W[i, j] = W[j, i] if (symmetric and j < i) else eng.fresh('inv', output=True)
         for i in range(n):
             for j in range(n):
                 eng.assume(lift(sum(W[i, l] * A[l, j] for l in range(n))) == (1 if i == j else 0), 'linalg')
